@@ -108,8 +108,9 @@ func check(c Case) vk.Verdict {
 	var sessMW fiber.Handler
 	sctr := 0
 	switch c.Backend {
-	case "vk":
+	case "vk", "vk-retain":
 		st = vk.NewStorage()
+		st.Retain = c.Backend == "vk-retain"
 		st.FailGet, st.FailDelete = map[int]bool{}, map[int]bool{}
 		for _, n := range c.FailGet {
 			st.FailGet[n] = true
@@ -432,10 +433,10 @@ var referers = []string{"", "", "SCHEME://site.test/page", "https://trusted.test
 	"https://trusted.test:8443/p", "https://a.wild.test:8443/", "SCHEME://site.test:8443/page"}
 
 func genCase(t *rapid.T) Case {
-	c := Case{Backend: rapid.SampledFrom([]string{"vk", "vk", "memory", "session"}).Draw(t, "backend"),
+	c := Case{Backend: rapid.SampledFrom([]string{"vk", "vk", "vk-retain", "memory", "session"}).Draw(t, "backend"),
 		Extractor: rapid.SampledFrom([]string{"header", "form", "query", "param", "cookie"}).Draw(t, "extractor"),
 		SingleUse: rapid.Bool().Draw(t, "single"), Idle: rapid.SampledFrom([]int{5, 30, 3600}).Draw(t, "idle")}
-	if c.Backend == "vk" && rapid.IntRange(0, 2).Draw(t, "faults") == 0 {
+	if (c.Backend == "vk" || c.Backend == "vk-retain") && rapid.IntRange(0, 2).Draw(t, "faults") == 0 {
 		c.FailGet = rapid.SliceOfN(rapid.IntRange(1, 15), 0, 2).Draw(t, "failget")
 		c.FailDel = rapid.SliceOfN(rapid.IntRange(1, 4), 0, 1).Draw(t, "faildel")
 	}
